@@ -93,7 +93,7 @@ pub fn run(ctx: &Ctx) -> Outcome {
                             let mut core = rec::core(cfg, d, key, &iv);
                             ensure!(core.set_block_pos(lim - k), "MACHINERY", "harness: block position does not fit");
                             let inp = &data[..n];
-                            let before = if kind == Kind::InPlace { inp.to_vec() } else { dirty(n) };
+                            let before = if kind.in_place() { inp.to_vec() } else { dirty(n) };
                             let mut out = before.clone();
                             toy::log_start();
                             let r = core.partial(kind, inp, &mut out);
